@@ -260,6 +260,7 @@ func runC06(tier string, seed uint64) {
 	rng := NewRng(seed)
 	for _, kind := range allKinds {
 		c06BackendRefusal("c06", kind)
+		mpSlowPart("c06", kind) // a part upload in flight while its upload is completed
 	}
 	nseq, length := 25, 30
 	if tier == "thorough" {
@@ -414,8 +415,14 @@ func runC14(tier string, seed uint64) {
 	if tier == "thorough" {
 		nseq = 400
 	}
-	keyPool := []string{"a", "b/x", "b/y", "c", "d/e/f", "ab", "b"}
+	keyPool0 := []string{"a", "b/x", "b/y", "c", "d/e/f", "ab", "b"}
+	// keys that begin with the delimiter, or with a byte that sorts before it
+	keyPool1 := []string{"/docs/c", "docs/a", ".cfg/x", "-tmp", "+in/1", "//x", "docs/b/z"}
 	for i := 0; i < nseq; i++ {
+		keyPool := keyPool0
+		if i%4 == 3 {
+			keyPool = keyPool1
+		}
 		s := newSess("c14", "mem", SessOpts{})
 		b := singleBucketName
 		s.MkBucket(b)
@@ -486,7 +493,7 @@ func runC14(tier string, seed uint64) {
 			}
 		}
 		// upload listings
-		for _, pd := range [][2]string{{"", ""}, {"", "/"}, {"b", "/"}, {"b/", "/"}, {"a", ""}, {"", "b"}} {
+		for _, pd := range [][2]string{{"", ""}, {"", "/"}, {"b", "/"}, {"b/", "/"}, {"a", ""}, {"", "b"}, {"docs/", "/"}, {"/", "/"}, {"/docs/", "/"}, {"docs", "/"}, {".", "/"}, {"x", "/"}} {
 			for lim := 1; lim <= len(ups)+1; lim++ {
 				emit(s.prop, "PB", strconv.Itoa(lim))
 				km, im := "", ""
